@@ -1,0 +1,48 @@
+//go:build verif
+
+// Contracts for aggregate.go (C18), checked by nsqvc. Comment-only file.
+
+package quantile
+
+// Every percentile entry is a real (non-nil) map: established by a successful UnmarshalJSON and by
+// Add, needed by Add (it writes into the entries).
+//@ pred entriesOK(e *E2eProcessingLatencyAggregate) :=
+//@      forall k int :: {e.Percentiles[k]} 0 <= k && k < len(e.Percentiles) ==> e.Percentiles[k] != nil
+//@ pred fitsInt(x int) := -9223372036854775808 <= x && x <= 9223372036854775807
+
+// Add never crashes on a well-formed receiver, whatever e2 holds (nil entries, missing keys);
+// the count is the sum (when it fits an int) and every entry stays a real map.
+// The frame names slices of clusterinfo element types only because the trusted contract of
+// sort.Sort is not precise about which slice it permutes (see .trusted/clusterinfo.spec).
+//@ func (e *E2eProcessingLatencyAggregate) Add(e2 *E2eProcessingLatencyAggregate)
+//@   props C18
+//@   ghostparam gcs []*github.com/nsqio/nsq/internal/clusterinfo.ChannelStats
+//@   requires e != nil && e2 != nil
+//@   requires[entries] entriesOK(e)
+//@   ensures[addr] e.Addr == "*"
+//@   ensures[count] fitsInt(old(e.Count) + old(e2.Count)) ==> e.Count == old(e.Count) + old(e2.Count)
+//@   ensures[entries] entriesOK(e)
+//@   ensures[nothing-dropped] len(e.Percentiles) >= old(len(e.Percentiles))
+//@   ensures[channel-slices-kept] forall k int :: {gcs[k]} 0 <= k && k < len(gcs) ==> gcs[k] == old(gcs[k])
+//@   modifies e.Addr, e.Count, e.Percentiles, elems(map[string]float64), mapstore(map[string]float64),
+//@        elems(*github.com/nsqio/nsq/internal/clusterinfo.ChannelStats), elems(*github.com/nsqio/nsq/internal/clusterinfo.ClientStats), elems(*github.com/nsqio/nsq/internal/clusterinfo.TopicStats), elems(*github.com/nsqio/nsq/internal/clusterinfo.Producer), elems(github.com/nsqio/nsq/internal/clusterinfo.ProducerTopic)
+//@   loop 0
+//@     invariant[p] p == e.Percentiles && len(p) >= old(len(e.Percentiles))
+//@     invariant[entries] forall k int :: {p[k]} 0 <= k && k < len(p) ==> p[k] != nil
+//@     invariant[count] e.Count == old(e.Count) + old(e2.Count) || !fitsInt(old(e.Count) + old(e2.Count))
+//@     invariant[addr] e.Addr == "*"
+//@   loop 1
+//@     invariant[p] p == e.Percentiles && len(p) >= old(len(e.Percentiles))
+//@     invariant[entries] forall k int :: {p[k]} 0 <= k && k < len(p) ==> p[k] != nil
+//@     invariant[i] i == -1
+//@     invariant[count] e.Count == old(e.Count) + old(e2.Count) || !fitsInt(old(e.Count) + old(e2.Count))
+//@     invariant[addr] e.Addr == "*"
+
+// Decoding an upstream document never crashes, whatever it holds; on success every entry is a real map.
+// (json.Unmarshal is modelled as leaving arbitrary values in `resp`: any entry may be nil.)
+//@ func (e *E2eProcessingLatencyAggregate) UnmarshalJSON(b []byte) error
+//@   props C18
+//@   requires e != nil
+//@   ensures[entries] result == nil ==> entriesOK(e)
+//@   loop 0
+//@     invariant[entries] forall k int :: {resp.Percentiles[k]} 0 <= k && k <= rangeindex && k < len(resp.Percentiles) ==> resp.Percentiles[k] != nil
